@@ -390,68 +390,9 @@ func ExtractConfirmationsFromViewChangeMessages(vcms []*ViewChangeMessage) []*pr
 
 	res := make([]*protocol.ViewChangeMessageContentBuilder, 0, len(vcms))
 	for _, vcm := range vcms {
-		header := vcm.content.SignedHeader()
-		sender := vcm.content.Sender()
-		proof := header.PreparedProof()
-		var proofBuilder *protocol.PreparedProofBuilder = nil
-		if proof != nil && len(proof.Raw()) > 0 {
-			ppBlockRefBuilder := &protocol.BlockRefBuilder{
-				MessageType: proof.PreprepareBlockRef().MessageType(),
-				InstanceId:  proof.PreprepareBlockRef().InstanceId(),
-				BlockHeight: proof.PreprepareBlockRef().BlockHeight(),
-				View:        proof.PreprepareBlockRef().View(),
-				BlockHash:   proof.PreprepareBlockRef().BlockHash(),
-			}
-			ppSender := &protocol.SenderSignatureBuilder{
-				MemberId:  proof.PreprepareSender().MemberId(),
-				Signature: proof.PreprepareSender().Signature(),
-			}
-			pBlockRef := &protocol.BlockRefBuilder{
-				MessageType: proof.PrepareBlockRef().MessageType(),
-				InstanceId:  proof.PrepareBlockRef().InstanceId(),
-				BlockHeight: proof.PrepareBlockRef().BlockHeight(),
-				View:        proof.PrepareBlockRef().View(),
-				BlockHash:   proof.PrepareBlockRef().BlockHash(),
-			}
-			pSendersIter := proof.PrepareSendersIterator()
-			pSenders := make([]*protocol.SenderSignatureBuilder, 0, 1)
-
-			for {
-				if !pSendersIter.HasNext() {
-					break
-				}
-				nextPSender := pSendersIter.NextPrepareSenders()
-				pSender := &protocol.SenderSignatureBuilder{
-					MemberId:  nextPSender.MemberId(),
-					Signature: nextPSender.Signature(),
-				}
-
-				pSenders = append(pSenders, pSender)
-			}
-
-			proofBuilder = &protocol.PreparedProofBuilder{
-				PreprepareBlockRef: ppBlockRefBuilder,
-				PreprepareSender:   ppSender,
-				PrepareBlockRef:    pBlockRef,
-				PrepareSenders:     pSenders,
-			}
-		}
-
-		viewChangeMessageContentBuilder := &protocol.ViewChangeMessageContentBuilder{
-			SignedHeader: &protocol.ViewChangeHeaderBuilder{
-				MessageType:   header.MessageType(),
-				InstanceId:    header.InstanceId(),
-				BlockHeight:   header.BlockHeight(),
-				View:          header.View(),
-				PreparedProof: proofBuilder,
-			},
-			Sender: &protocol.SenderSignatureBuilder{
-				MemberId:  sender.MemberId(),
-				Signature: sender.Signature(),
-			},
-		}
-		res = append(res, viewChangeMessageContentBuilder)
-
+		// embed the vote exactly as it was received and verified: the sender's signature is over these bytes,
+		// and rebuilding the vote from its field values does not reproduce a non-canonical encoding
+		res = append(res, protocol.ViewChangeMessageContentBuilderFromRaw(vcm.content.Raw()))
 	}
 	return res
 	//const viewChangeVotes: ViewChangeContent[] =
